@@ -430,18 +430,13 @@ _ORIG = {}
 
 def p2_exec (ctx, c):
   """One execution.  c: dict(plan=[(con index, msg index)], ncons, eof=None|con index, calls, sdev,
-  pipe_buf=None|int, opcode=bool, rotate=bool).  Returns (bad list, observation)."""
+  pipe_buf=None|int, rotate=bool).  Returns (bad list, observation)."""
   from mc.env import boot
   core = boot()
   from mc import thr
   import pox.openflow.of_01 as of01, pox.lib.util as U
   if not _ORIG:
     _ORIG["PIPE_BUF"] = of01.PIPE_BUF
-  if c.get("opcode"):
-    # CPython 3.12 enables per-instruction events for sys.settrace only in settrace calls made AFTER some
-    # frame asked for them (interpreter-wide flag): ask now, before the controlled threads install their
-    # trace function, so that the first execution of a process is traced like all later ones
-    sys._getframe().f_trace_opcodes = True
   W = P2World()
   def pending ():
     ds = W.ds
@@ -449,7 +444,7 @@ def p2_exec (ctx, c):
       if data and not con.disconnected and not con.sock.closed and not con.sock.shut: return True
     return False
   S = thr.Sched(ctx, trace_files=("openflow/of_01.py",), trace_funcs=FUNCS,
-                opcode_funcs=FUNCS if c.get("opcode") else (), pending=pending, max_points=c.get("max_points", 5000))
+                pending=pending, max_points=c.get("max_points", 5000))
   S.rotate = bool(c.get("rotate"))
   W.S = S
   def live ():
@@ -560,7 +555,7 @@ def p2_exec (ctx, c):
 def p2_name (c):
   return "p2/%dcon%s%s%s%s/plan%s" % (c["ncons"], "" if c.get("eof") is None else "/eof%d" % c["eof"],
                                      "/pipebuf%d" % c["pipe_buf"] if c.get("pipe_buf") else "",
-                                     "/opcode" if c.get("opcode") else "", "/rotate" if c.get("rotate") else "",
+                                     "", "/rotate" if c.get("rotate") else "",
                                      "".join("%d" % ci for ci, mi in c["plan"]))
 
 
@@ -572,8 +567,10 @@ def p2_configs (cfg):
   def add (ncons, plan, eof=None, bound=2, sdev=2, **kw):
     cs.append(dict(part=2, ncons=ncons, plan=plan, eof=eof, bound=bound, sdev=sdev, calls=4, **kw))
   # (schedule deviations, script deviations)
-  pairs = cfg.pick([(2, 1), (1, 2)], [(2, 2), (3, 1)])
-  for (b, s) in pairs:
+  if not cfg.quick:
+    add(1, ONE, 0, 3, 1)              # the largest items first (load balance)
+    add(1, ONE, None, 3, 1)
+  for (b, s) in cfg.pick([(2, 1), (1, 2)], [(2, 2)]):
     add(1, ONE, None, b, s)
     add(2, TWO, None, b, s)
     add(1, ONE, 0, b, s)
@@ -582,8 +579,6 @@ def p2_configs (cfg):
   add(1, ONE, 0, 1, 2, pipe_buf=3)
   if not cfg.quick:
     add(1, ONE, None, 2, 2, pipe_buf=3)
-    add(1, ONE, 0, 2, 1, opcode=True)
-    add(1, ONE, None, 2, 1, opcode=True)
     add(1, ONE, 0, 2, 1, rotate=True)
     add(2, TWO, 0, 2, 1, rotate=True)
   return cs
